@@ -813,6 +813,8 @@ func runC03(c *Ctx) {
 	}
 	ruleForwardM(c, p, "C03.forward", []string{"EncodeState", "DecodeState"})
 	ruleWrapperInferTotal(c, p, "C03.wrapper-infer")
+	ruleReaderAlias(c, p, "C03.alias")
+	ruleCallbackKept(c, p, "C03.callback-kept")
 	{
 		c.R.Rule("C03.messages", "E2 containment and gate provenance (as C17.shape / C17.gates / C17.fieldorder) for every protocol message: what the server-side encoders of progress, profile, exception, table columns, ... emit at a revision is what the client's decoders consume at that revision")
 		pairs := messagePairs(p)
